@@ -3,10 +3,10 @@ import json
 import os
 
 
-def cfg_text(start, ver, maxfree, ts="{1}", iddesc="FALSE", forkfrom=5, triples="TRUE", dishonest="FALSE", maxbad=1):
+def cfg_text(start, ver, maxfree, ts="{1}", iddesc="FALSE", forkfrom=5, triples="TRUE", dishonest="FALSE", maxbad=1, addl="{}"):
     return ("SPECIFICATION Spec\nCONSTANTS\n  Start = %d\n  Ver = \"%s\"\n  MaxFree = %d\n  ForkFrom = %d\n"
-            "  TSChoices = %s\n  IdDesc = %s\n  Triples = %s\n  Dishonest = %s\n  MaxBad = %d\nINVARIANTS Emit\nCHECK_DEADLOCK FALSE\n"
-            % (start, ver, maxfree, forkfrom, ts, iddesc, triples, dishonest, maxbad))
+            "  TSChoices = %s\n  IdDesc = %s\n  Triples = %s\n  Dishonest = %s\n  MaxBad = %d\n  Addl = %s\nINVARIANTS Emit\nCHECK_DEADLOCK FALSE\n"
+            % (start, ver, maxfree, forkfrom, ts, iddesc, triples, dishonest, maxbad, addl))
 
 
 def plans(tier):
@@ -21,7 +21,9 @@ def plans(tier):
                 (2, "1", 1, "{1}", "FALSE", "TRUE", "TRUE"), (2, "1", 1, "{1}", "TRUE", "TRUE", "TRUE"),
                 (2, "10", 1, "{1}", "TRUE", "TRUE", "TRUE"), (2, "12", 1, "{1}", "FALSE", "TRUE", "TRUE"),
                 # ... and events sent on top of such an event (which cite it): the rejected-event oracle matters
-                (3, "10", 2, "{1}", "TRUE", "FALSE", "TRUE"), (3, "12", 2, "{1}", "FALSE", "FALSE", "TRUE")]
+                (3, "10", 2, "{1}", "TRUE", "FALSE", "TRUE"), (3, "12", 2, "{1}", "FALSE", "FALSE", "TRUE"),
+                # additional creators (privileged-creator versions): alice holds the creators' level
+                (2, "12", 2, "{1}", "FALSE", "FALSE", "FALSE", 7, '{"alice"}')]
     out = []
     for ver in ["1", "2", "6", "10", "11", "12", "org.matrix.hydra.11"]:
         out.append((1, ver, 2, "{1, 2}", "FALSE", "TRUE", "FALSE"))
@@ -35,6 +37,10 @@ def plans(tier):
         out.append((3, ver, 2, "{1}", "TRUE", "TRUE", "TRUE"))
         out.append((3, ver, 2, "{1, 2}", "FALSE", "FALSE", "TRUE"))
     out.append((2, "10", 2, "{1}", "FALSE", "FALSE", "TRUE", 5))
+    for ver in ["12", "org.matrix.hydra.11"]:
+        out.append((2, ver, 2, "{1, 2}", "FALSE", "TRUE", "FALSE", None, '{"alice"}'))
+        out.append((1, ver, 2, "{1}", "TRUE", "FALSE", "TRUE", None, '{"bob"}'))
+    out.append((2, "10", 1, "{1}", "FALSE", "FALSE", "FALSE", None, '{"alice"}'))   # meaningless before v12: must change nothing
     return out
 
 
@@ -45,10 +51,11 @@ def generate(ctx):
     jobs = []
     for n, plan in enumerate(plans(ctx.tier)):
         start, ver, mf, ts, idd, tri, dis = plan[:7]
-        ff = plan[7] if len(plan) > 7 else (10 if start == 3 else 5)
+        ff = plan[7] if len(plan) > 7 and plan[7] is not None else (10 if start == 3 else 5)
+        addl = plan[8] if len(plan) > 8 else "{}"
         cfg = "Room_gen_%s_%d.cfg" % (ctx.tier, n)
         with open(os.path.join(d, cfg), "w") as f:
-            f.write(cfg_text(start, ver, mf, ts, idd, triples=tri, forkfrom=ff, dishonest=dis))
+            f.write(cfg_text(start, ver, mf, ts, idd, triples=tri, forkfrom=ff, dishonest=dis, addl=addl))
         jobs.append(cfg)
     if ctx.tier == "quick":
         with ThreadPoolExecutor(max_workers=4) as ex:
